@@ -8,7 +8,8 @@ from harness import core, tlc
 LEVEL = "model_checking"
 PID = "C03"
 
-CURRENT = dict(TrainClears={"ps", "kern", "vs"}, LoadClears={"ps", "kern", "vs"}, SetDataClears={"ps"}, KernGuard=True, CholKeyedByJitter=False)
+CURRENT = dict(TrainClears={"ps", "kern", "vs"}, LoadClears={"ps", "kern", "vs"}, SetDataClears={"ps"}, KernGuard=True, CholKeyedByJitter=False,
+               ShapeGuard=True, LoadClearsOnlyTouched=False, XB={"flat", "b3", "b1"})
 # deliberately broken models: TLC must reject each (the invariant is not vacuous)
 BROKEN = {
     "train-does-not-clear-strategy": ("exact", dict(TrainClears={"kern", "vs"}), "NoStrategyWhileTraining"),
@@ -17,6 +18,8 @@ BROKEN = {
     "load-does-not-clear-kernel-cache": ("sgpr", dict(LoadClears={"ps", "vs"}), "NoStaleServe"),
     "kernel-cache-unguarded-in-training": ("sgpr", dict(KernGuard=False, TrainClears={"ps", "vs"}), "NoStaleServe"),
     "train-does-not-clear-variational-memo": ("svgp", dict(TrainClears={"ps", "kern"}), "NoStaleServe"),
+    "cholesky-factor-served-across-test-batch-shapes": ("svgp", dict(ShapeGuard=False), "NoStaleShape"),
+    "partial-load-clears-only-modules-that-receive-keys": ("svgp", dict(LoadClearsOnlyTouched=True), "NoStaleServe"),
 }
 
 
@@ -29,18 +32,22 @@ def write_mc(workdir, name, family, consts, maxv, maxlen, record, invariants):
     def setlit(s):
         return "{" + ", ".join('"%s"' % x for x in sorted(s)) + "}"
     with open(os.path.join(workdir, mod + ".tla"), "w") as f:
-        f.write("---- MODULE %s ----\nEXTENDS GPCache\nTC == %s\nLC == %s\nSC == %s\n====\n" % (
-            mod, setlit(c["TrainClears"]), setlit(c["LoadClears"]), setlit(c["SetDataClears"])))
+        f.write("---- MODULE %s ----\nEXTENDS GPCache\nTC == %s\nLC == %s\nSC == %s\nXBDef == %s\n====\n" % (
+            mod, setlit(c["TrainClears"]), setlit(c["LoadClears"]), setlit(c["SetDataClears"]), setlit(c["XB"])))
     cfg = os.path.join(workdir, mod + ".cfg")
     tlc.write_cfg(cfg, spec="Spec", constants={"Family": family, "MaxV": maxv, "MaxLen": maxlen, "RecordHist": record, "TrainClears": "<- TC",
                                                "LoadClears": "<- LC", "SetDataClears": "<- SC", "KernGuard": c["KernGuard"],
-                                               "CholKeyedByJitter": c["CholKeyedByJitter"]}, invariants=invariants)
+                                               "CholKeyedByJitter": c["CholKeyedByJitter"], "ShapeGuard": c["ShapeGuard"], "LoadClearsOnlyTouched": c["LoadClearsOnlyTouched"], "XB": "<- XBDef"}, invariants=invariants)
     return os.path.join(workdir, mod + ".tla"), cfg
 
 
 # ---------------------------------------------------------------------------------------------
 # replay of one history on a real model
 # ---------------------------------------------------------------------------------------------
+def prior_op(a):
+    return a == "PriorPredict"
+
+
 def run_history(family, ops, seed, want_trace=False):
     """Returns (failure or None, steps compared, trace events)."""
     import torch
@@ -79,6 +86,9 @@ def run_history(family, ops, seed, want_trace=False):
                 settings.skip_posterior_variances(extra["skipvar"])]
         return cms
 
+    g2 = torch.Generator().manual_seed(seed + 5)
+    xs_by = {"flat": xs, "b3": torch.cat([xs.unsqueeze(0), torch.rand(2, *xs.shape, generator=g2, dtype=xs.dtype) * 2 - 1], 0), "b1": xs.flip(0).unsqueeze(0)}
+
     def predict(mdl, s, extra, prior=False):
         from contextlib import ExitStack
         with ExitStack() as st:
@@ -86,7 +96,7 @@ def run_history(family, ops, seed, want_trace=False):
                 st.enter_context(cm)
             if prior:
                 st.enter_context(settings.prior_mode(True))
-            out = mdl(xs)
+            out = mdl(xs_by[extra.get("xb", "flat")])
             mean, cov = G.dist_tensors(out, extra["skipvar"])
         return out, mean, cov
 
@@ -119,9 +129,11 @@ def run_history(family, ops, seed, want_trace=False):
             elif a in ("Predict", "PriorPredict"):
                 s = dict(fpv=op.get("fpv", False), detach=op.get("detach", True), jit=op.get("jit", "d0"))
                 extra = dict(lazy=bool(op.get("lazy", True)), eager=rnd.choice([512, 1]), skipvar=(rnd.random() < 0.15))
+                extra["xb"] = op.get("xb", "flat") if not prior_op(a) else "flat"
                 if family == "mtask":
                     extra["eager"] = 512
-                flags = dict(stale_jit=bool(op.get("stalejit")), stale_cls=bool(op.get("stalecls")))
+                    extra["xb"] = "flat"
+                flags = dict(stale_jit=bool(op.get("stalejit")), stale_cls=bool(op.get("stalecls")), stale_xb=bool(op.get("stalexb")))
                 prior = a == "PriorPredict"
                 lok, lres = core.guarded(lambda: predict(model, s, extra, prior=prior))
                 # oracle: a freshly constructed model with the same parameters and data, same settings
@@ -163,7 +175,18 @@ def run_history(family, ops, seed, want_trace=False):
                 if _verif is not None:
                     _verif.emit("data_changed", step=i)
             elif a == "LoadStateDict":
-                model.load_state_dict({k: v.clone() for k, v in alt_states[n_load % 3].items()})
+                part = op.get("part", "full")
+                sd = {k: v.clone() for k, v in alt_states[n_load % 3].items()}
+                if part == "lik":
+                    sd = {k: v for k, v in sd.items() if k.startswith("likelihood.")}
+                elif part == "hyper":
+                    # kernel and mean entries; the whitened strategy's version flag goes along (a dictionary without them is, by design,
+                    # read as a checkpoint of an old version and converted)
+                    sd = {k: v for k, v in sd.items() if k.startswith(("covar_module.", "mean_module."))
+                          or k == "variational_strategy.updated_strategy"}
+                if not sd:
+                    raise core.Machinery("empty partial state dict (%s, %s)" % (family, part))
+                model.load_state_dict(sd, strict=(part == "full"))
                 n_load += 1
                 if _verif is not None:
                     _verif.emit("params_changed", step=i)
@@ -206,6 +229,8 @@ def signature(family, ops, fail):
         return "C03/%s/cholesky_factor-not-keyed-by-variational_cholesky_jitter" % family
     if fail.get("stale_cls") and fail["what"] in ("mean", "covariance", "raises", "does-not-raise"):
         return "C03/%s/strategy-class-fixed-at-creation-by-lazily_evaluate_kernels" % family
+    if fail.get("stale_xb") and fail["what"] in ("mean", "covariance") and family == "kiss":
+        return "C03/kiss/fast_pred_var-covar_cache-keeps-the-test-batch-shape-of-the-call-that-filled-it"
     since = []
     for op in ops[:i][::-1]:
         if op["a"] in ("Predict", "PriorPredict"):
@@ -221,7 +246,7 @@ def _worker(item):
         ops = h["ops"]
         fail, compared, trace = run_history(item["family"], ops, h["seed"], want_trace=h.get("trace", False))
         names = [o["a"] + ("(fpv)" if o.get("fpv") else "") + ("(attached)" if o.get("detach") is False else "") + ("(jit)" if o.get("jit") == "big" else "")
-                 + ("(eager-kernels)" if o.get("lazy") is False else "") + ("(%s)" % o["which"] if o.get("which") in ("targets", "inputs") else "") for o in ops]
+                 + ("(eager-kernels)" if o.get("lazy") is False else "") + ("(x:%s)" % o["xb"] if o.get("xb", "flat") != "flat" else "") + ("(%s-only)" % o["part"] if o.get("part", "full") != "full" else "") + ("(%s)" % o["which"] if o.get("which") in ("targets", "inputs") else "") for o in ops]
         preds = [k for k, o in enumerate(ops) if o["a"] in ("Predict", "PriorPredict")]
         nontrivial = len(preds) >= 2 and any(o["a"] not in ("Predict", "PriorPredict", "Eval") for o in ops[preds[0]:preds[-1]])
         r = dict(key=[item["family"], names], ok=fail is None, nontrivial=nontrivial, n=max(compared, 1))
@@ -291,14 +316,18 @@ def run(ck):
     # (1) exhaustive check of the cache machine for the current code, per family; broken variants must be rejected
     jobs, meta = [], []
     for f in fams_spec:
-        mod, cfg = write_mc(os.path.join(wd, "mc"), "cur_" + f, f, {}, 4 if thorough else 3, 0, False, ["TypeOK", "NoStaleServe", "NoStrategyWhileTraining"])
+        mod, cfg = write_mc(os.path.join(wd, "mc"), "cur_" + f, f, {}, 4 if thorough else 3, 0, False,
+                            ["TypeOK", "NoStaleServe", "NoStrategyWhileTraining"] + (["NoStaleShape"] if f != "kiss" else []))   # kiss: known finding, see predxb
         jobs.append(((mod, cfg), dict(name=PID + "/mc_" + f, workers=4, check=False)))
         meta.append(("cur", f, None))
+    mod, cfg = write_mc(os.path.join(wd, "mc"), "xb_kiss", "kiss", {}, 2, 0, False, ["NoStaleShape"])
+    jobs.append(((mod, cfg), dict(name=PID + "/mc_xb_kiss", workers=2, check=False)))
+    meta.append(("predxb", "kiss", "NoStaleShape"))
     mod, cfg = write_mc(os.path.join(wd, "mc"), "jit_svgp", "svgp", {}, 2, 0, False, ["NoStaleSettings"])
     jobs.append(((mod, cfg), dict(name=PID + "/mc_jit", workers=2, check=False)))
     meta.append(("pred", "svgp", "NoStaleSettings"))
     for name, (f, consts, inv) in BROKEN.items():
-        mod, cfg = write_mc(os.path.join(wd, "mc"), "broken_" + name, f, consts, 2, 0, False, ["NoStaleServe", "NoStrategyWhileTraining"])
+        mod, cfg = write_mc(os.path.join(wd, "mc"), "broken_" + name, f, consts, 2, 0, False, ["NoStaleServe", "NoStrategyWhileTraining", "NoStaleShape"])
         jobs.append(((mod, cfg), dict(name=PID + "/broken_" + name, workers=2, check=False)))
         meta.append(("broken", name, inv))
     # (2) generation
@@ -306,9 +335,13 @@ def run(ck):
     Lof = {f: (Lmax if f in ("exact", "svgp") else 3) for f in fams_spec}       # kernel-cache families: length 3 + simulations
     for f in fams_spec:
         L = Lof[f]
-        mod, cfg = write_mc(os.path.join(wd, "gen"), "gen_" + f, f, {}, 3, L, True, [])
+        mod, cfg = write_mc(os.path.join(wd, "gen"), "gen_" + f, f, dict(XB={"flat"} if f != "svgp" else {"flat", "b3", "b1"}), 3, L, True, [])
         jobs.append(((mod, cfg), dict(name=PID + "/gen_" + f, workers=4, check=False, dump=True, coverage=False)))
         meta.append(("gen", f, None))
+        if f != "svgp":       # every test batch shape, one step shorter (the state space of histories grows with the alphabet)
+            mod, cfg = write_mc(os.path.join(wd, "gen"), "genxb_" + f, f, {}, 3, L - 1, True, [])
+            jobs.append(((mod, cfg), dict(name=PID + "/genxb_" + f, workers=4, check=False, dump=True, coverage=False)))
+            meta.append(("genxb", f, None))
         mod, cfg = write_mc(os.path.join(wd, "gen"), "sim_" + f, f, {}, 4, 9, True, [])
         jobs.append(((mod, cfg), dict(name=PID + "/sim_" + f, workers=1, check=False, simulate=dict(num=(400 if thorough else 60)), depth=10, seed=ck.seed + 1)))
         meta.append(("sim", f, None))
@@ -323,6 +356,8 @@ def run(ck):
             elif res.rc != 0:
                 raise tlc.TLCError("TLC failed on GPCache %s:\n%s" % (name, res.stdout[-1500:]))
             ck.require_coverage(res, ["Train", "Eval", "OptStep", "Next", "LoadStateDict"])
+        elif kind == "predxb":
+            ck.extra["model_prediction_kiss_test_batch_shape"] = (res.violation or {}).get("name")
         elif kind == "pred":
             ck.extra["model_prediction_jitter"] = (res.violation or {}).get("name")
         elif kind == "broken":
@@ -333,6 +368,10 @@ def run(ck):
             if res.rc != 0 and not res.violation:
                 raise tlc.TLCError("generation failed for %s:\n%s" % (name, res.stdout[-1500:]))
             hists[name] += histories_from_states(res.states(), Lof[name])
+        elif kind == "genxb":
+            if res.rc != 0 and not res.violation:
+                raise tlc.TLCError("generation failed for %s:\n%s" % (name, res.stdout[-1500:]))
+            hists[name] += [h for h in histories_from_states(res.states(), Lof[name] - 1) if any(o.get("xb", "flat") != "flat" for o in h)]
         elif kind == "sim":
             for beh in res.behaviours():
                 if beh:
@@ -354,6 +393,10 @@ def run(ck):
             sel = hs
             if rf == "mtask" and not thorough:
                 sel = [h for k, h in enumerate(hs) if k % 6 == 0]
+            if rf in ("sgpr", "kiss") and not thorough:
+                # quick tier: every history that uses a non-default test batch shape or a partial load, a third of the others
+                rare = lambda h: any(o.get("xb", "flat") != "flat" or o.get("part", "full") != "full" for o in h)
+                sel = [h for k, h in enumerate(hs) if rare(h) or k % 3 == 0]
             chunk = []
             for k, h in enumerate(sel):
                 chunk.append(dict(ops=finish_history(h, f in ("sgpr", "kiss")), seed=ck.seed * 7919 + k, trace=(k % 5 == 0)))
